@@ -1276,12 +1276,143 @@ func TestGocvReplay(t *testing.T) {
 	gocvRoundTrip(t, "register request", req)
 }
 `}
+	replayers["scenario:C01-keyblock"] = &Replayer{PkgDir: ".", Oracle: "Get responses carrying a symmetric key whose key block has every shape (no key value, wrapped, raw bytes, transparent symmetric key; with and without attributes, algorithm, length, wrapping data) round-trip to identical bytes",
+		Template: mirrorHead + `
+func TestGocvReplay(t *testing.T) {
+	raw := []byte{1, 2, 3, 4, 5, 6, 7, 8}
+	shapes := map[string]*kmip.KeyValue{
+		"no-value":  nil,
+		"wrapped":   { Wrapped: &raw},
+		"raw":       { Plain: &kmip.PlainKeyValue{KeyMaterial: kmip.KeyMaterial{Bytes: &raw}}},
+		"raw+attrs": { Plain: &kmip.PlainKeyValue{KeyMaterial: kmip.KeyMaterial{Bytes: &raw}, Attribute: gocvAttrs()}},
+		"tsym":      { Plain: &kmip.PlainKeyValue{KeyMaterial: kmip.KeyMaterial{TransparentSymmetricKey: &kmip.TransparentSymmetricKey{Key: raw}}}},
+	}
+	for name, kv := range shapes {
+		for mask := 0; mask < 8; mask++ {
+			kb := kmip.KeyBlock{KeyFormatType: kmip.KeyFormatTypeRaw, KeyValue: kv}
+			if name == "tsym" {
+				kb.KeyFormatType = kmip.KeyFormatTypeTransparentSymmetricKey
+			}
+			if mask&1 != 0 {
+				kb.CryptographicAlgorithm = kmip.CryptographicAlgorithmAES
+				kb.CryptographicLength = 64
+			}
+			if mask&2 != 0 {
+				kb.KeyCompressionType = kmip.KeyCompressionTypeECPublicKeyTypeUncompressed
+			}
+			if mask&4 != 0 {
+				kb.KeyWrappingData = &kmip.KeyWrappingData{WrappingMethod: kmip.WrappingMethodEncrypt, IVCounterNonce: []byte{1}}
+			}
+			msg := kmip.ResponseMessage{Header: kmip.ResponseHeader{ProtocolVersion: kmip.V1_4, BatchCount: 1},
+				BatchItem: []kmip.ResponseBatchItem{ {Operation: kmip.OperationGet, ResultStatus: kmip.ResultStatusSuccess,
+					ResponsePayload: &payloads.GetResponsePayload{ObjectType: kmip.ObjectTypeSymmetricKey, UniqueIdentifier: "id", Object: &kmip.SymmetricKey{KeyBlock: kb}}}}}
+			gocvRoundTrip(t, "key block "+name, &msg)
+		}
+	}
+}
+`}
+	replayers["scenario:C01-credential"] = &Replayer{PkgDir: ".", Oracle: "request headers carrying each kind of credential round-trip to identical bytes",
+		Template: mirrorHead + `
+func TestGocvReplay(t *testing.T) {
+	creds := []kmip.Credential{
+		{CredentialType: kmip.CredentialTypeUsernameAndPassword, CredentialValue: kmip.CredentialValue{UserPassword: &kmip.CredentialValueUserPassword{Username: "u", Password: "p"}}},
+		{CredentialType: kmip.CredentialTypeDevice, CredentialValue: kmip.CredentialValue{Device: &kmip.CredentialValueDevice{DeviceSerialNumber: "s", NetworkIdentifier: "n"}}},
+		{CredentialType: kmip.CredentialTypeAttestation, CredentialValue: kmip.CredentialValue{Attestation: &kmip.CredentialValueAttestation{Nonce: kmip.Nonce{NonceID: []byte{1}, NonceValue: []byte{2}}, AttestationType: kmip.AttestationTypeTPMQuote, AttestationMeasurement: []byte{3}}}},
+	}
+	for _, c := range creds {
+		msg := kmip.RequestMessage{Header: kmip.RequestHeader{ProtocolVersion: kmip.V1_4, Authentication: &kmip.Authentication{Credential: c}, BatchCount: 1},
+			BatchItem: []kmip.RequestBatchItem{ {Operation: kmip.OperationActivate, RequestPayload: &payloads.ActivateRequestPayload{UniqueIdentifier: "id-1"}}}}
+		gocvRoundTrip(t, "credential", &msg)
+	}
+}
+`}
+	for _, fn := range []string{"NoValue", "Wrapped", "Raw", "PKCS8", "TransparentSymmetric", "TransparentRSAPrivate", "TransparentRSAPublic", "TransparentECDSAPrivate", "TransparentECDSAPublic", "TransparentECPrivate", "TransparentECPublic"} {
+		replayers["kmip.lemmaMirrorKeyBlock"+fn] = replayers["scenario:C01-keyblock"]
+	}
+	for _, fn := range []string{"Password", "Device", "Attestation"} {
+		replayers["kmip.lemmaMirrorCredential"+fn] = replayers["scenario:C01-credential"]
+	}
 	replayers["kmip.lemmaMirrorResponseBatchItem"] = replayers["scenario:C01-response-item"]
 	replayers["kmip.lemmaMirrorRequestBatchItem"] = replayers["scenario:C01-request-item"]
 	replayers["payloads.lemmaMirrorImportRequest"] = replayers["scenario:C01-import"]
 	for _, fn := range []string{"payloads.lemmaMirrorGetResponse", "payloads.lemmaMirrorExportResponse", "payloads.lemmaMirrorRegisterRequest"} {
 		replayers[fn] = replayers["scenario:C01-payloads"]
 	}
+	// call-history independence, single goroutine (C20): reused cleared encoders, lookups of unknown names
+	replayers["scenario:C20"] = &Replayer{PkgDir: ".", Oracle: "every permutation of four values (messages of protocol versions 1.0 and 1.4 and bare payloads with version-gated fields) encoded on one reused, cleared encoder of each encoding gives the bytes a fresh encoder gives; failed name lookups and decodes in between change nothing; decoding after any history gives a value that re-encodes to the same bytes",
+		Template: `package kmip_test
+
+import (
+	"bytes"
+	"testing"
+
+	"github.com/ovh/kmip-go"
+	"github.com/ovh/kmip-go/payloads"
+	"github.com/ovh/kmip-go/ttlv"
+)
+
+func gocvPerms(n int) [][]int {
+	if n == 1 {
+		return [][]int{ {0}}
+	}
+	var out [][]int
+	for _, p := range gocvPerms(n - 1) {
+		for i := 0; i <= len(p); i++ {
+			q := append(append(append([]int{}, p[:i]...), n-1), p[i:]...)
+			out = append(out, q)
+		}
+	}
+	return out
+}
+
+func TestGocvReplay(t *testing.T) {
+	locate := &payloads.LocateRequestPayload{MaximumItems: 3, OffsetItems: 7, ObjectGroupMember: kmip.ObjectGroupMemberFresh}
+	vals := []any{
+		&kmip.RequestMessage{Header: kmip.RequestHeader{ProtocolVersion: kmip.V1_0, ClientCorrelationValue: "c", BatchCount: 1},
+			BatchItem: []kmip.RequestBatchItem{ {Operation: kmip.OperationLocate, RequestPayload: &payloads.LocateRequestPayload{MaximumItems: 3, OffsetItems: 7, ObjectGroupMember: kmip.ObjectGroupMemberFresh}}}},
+		&kmip.RequestMessage{Header: kmip.RequestHeader{ProtocolVersion: kmip.V1_4, ClientCorrelationValue: "c", BatchCount: 1},
+			BatchItem: []kmip.RequestBatchItem{ {Operation: kmip.OperationLocate, RequestPayload: &payloads.LocateRequestPayload{MaximumItems: 3, OffsetItems: 7, ObjectGroupMember: kmip.ObjectGroupMemberFresh}}}},
+		locate,
+		&kmip.CryptographicParameters{BlockCipherMode: kmip.BlockCipherModeGCM, TagLength: 16, SaltLength: new(int32)},
+	}
+	type codec struct {
+		name  string
+		fresh func() ttlv.Encoder
+	}
+	for _, c := range []codec{ {"ttlv", ttlv.NewTTLVEncoder}, {"xml", ttlv.NewXMLEncoder}, {"json", ttlv.NewJSONEncoder}} {
+		ref := make([][]byte, len(vals))
+		for i, v := range vals {
+			e := c.fresh()
+			e.TagAny(kmip.TagRequestPayload, v)
+			ref[i] = append([]byte{}, e.Bytes()...)
+		}
+		for _, perm := range gocvPerms(len(vals)) {
+			e := c.fresh()
+			for step, i := range perm {
+				e.Clear()
+				// unrelated activity between two encodings
+				ttlv.EnumByName(kmip.TagOperation, "NoSuchOperation")
+				ttlv.BitmaskByStr(kmip.TagCryptographicUsageMask, "NoSuchFlag")
+				var junk kmip.RequestMessage
+				_ = ttlv.UnmarshalTTLV([]byte{0x42, 0, 0x78, 1, 0, 0, 0, 0}, &junk)
+				e.TagAny(kmip.TagRequestPayload, vals[i])
+				if got := e.Bytes(); !bytes.Equal(got, ref[i]) {
+					t.Fatalf("GOCV-REPRODUCED: {{.Obligation}}: %s encoder reused after Clear, order %v step %d: value %d encodes to %d bytes, a fresh encoder gives %d bytes", c.name, perm, step, i, len(got), len(ref[i]))
+				}
+			}
+		}
+	}
+	// name lookups after unknown-name lookups
+	for i := 0; i < 2; i++ {
+		if _, err := ttlv.EnumByName(kmip.TagOperation, "NoSuchOperation"); err == nil {
+			t.Fatalf("GOCV-REPRODUCED: {{.Obligation}}: an unknown enumeration name resolves after it was looked up before")
+		}
+		if v, err := ttlv.EnumByName(kmip.TagOperation, "Locate"); err != nil || v != uint32(kmip.OperationLocate) {
+			t.Fatalf("GOCV-REPRODUCED: {{.Obligation}}: Locate resolves to %d, %v after failed lookups", v, err)
+		}
+	}
+}
+`}
 	// connection faults, sequential part (C11)
 	replayers["scenario:C11"] = &Replayer{PkgDir: "kmipclient", Oracle: "a client whose (re)connection failed can still be closed without panic and its calls fail; a call over connections that all end with EOF dials at most 4 times and returns an error",
 		Template: `package kmipclient
